@@ -155,35 +155,44 @@ example : (fun (f : JsonHistory.Fmt) (v : V) => f ≠ .gojson ∧ ∃ s bt, v = 
 open ZygoVerif.JsonHistory in
 /-- **The history theorem on the op language that the correspondence runs**: for every list
 of values whose one-step JSON round trip holds (`json_roundtrip`; proved for strings,
-sampled by the `rt` ops otherwise) and every list of steps — encodes in any format and
+sampled by the `rt` ops otherwise; asked of a value and of the value after `mv` has
+overwritten its first element) and every list of steps — encodes in any format and
 interpreter, decodes of any kept slot in any order, stability questions, the holder
-overwriting its bytes, mutations of decoded results — the model answers exactly what the
-reference machine answers: each decode gives `norm` of the value the slot was made from,
-each stability question `same`, and a decoded result changes only when it is mutated
-itself. No bound on the number of values or steps. -/
+overwriting its bytes, mutations of decoded results, mutations of the ORIGINAL values
+between encodes — the model answers exactly what the reference machine answers: each decode
+gives `norm` of the value the slot was made from as it was when the slot was made, each
+stability question `same`, and a decoded result changes only when it is mutated itself.
+No bound on the number of values or steps. -/
 theorem history_model_eq_spec (c : Codecs) (fp : FloatParse) (law : ∀ g, c.mp.dec (c.mp.enc g) = some g)
-    (vals : List V) (rt : ∀ v ∈ vals, unjson fp (sexpToJson v) = some (norm v)) (steps : List Step) :
+    (vals : List V)
+    (rt : ∀ v ∈ vals, unjson fp (sexpToJson v) = some (norm v) ∧
+      ∀ v', setFirstV v = some v' → unjson fp (sexpToJson v') = some (norm v'))
+    (steps : List Step) :
     modelRun c fp vals steps = specRun vals steps := by
-  apply Proofs.JsonHistory.runFrom_sim c fp vals _ steps _ _ (Proofs.JsonHistory.rel_init c fp)
-  intro v hv f
-  have h := rt v hv
-  unfold unjson at h
-  cases hp : Rfc8259.parse (sexpToJson v) with
-  | none => rw [hp] at h; simp at h
-  | some g =>
-    rw [hp] at h
-    cases f with
-    | json => exact ⟨_, rfl, fun _ => by simpa [decBytes, unjson, hp] using h⟩
-    | msgpack => exact ⟨c.mp.enc g, by simp [encBytes, msgpack, hp], fun _ => by simpa [decBytes, unmsgpack, law] using h⟩
-    | gojson => exact ⟨c.gj.enc g, by simp [encBytes, msgpack, hp], fun hne => absurd rfl hne⟩
+  have good : ∀ v, unjson fp (sexpToJson v) = some (norm v) → Proofs.JsonHistory.Good c fp v := by
+    intro v h f
+    unfold unjson at h
+    cases hp : Rfc8259.parse (sexpToJson v) with
+    | none => rw [hp] at h; simp at h
+    | some g =>
+      rw [hp] at h
+      cases f with
+      | json => exact ⟨_, rfl, fun _ => by simpa [decBytes, unjson, hp] using h⟩
+      | msgpack => exact ⟨c.mp.enc g, by simp [encBytes, msgpack, hp], fun _ => by simpa [decBytes, unmsgpack, law] using h⟩
+      | gojson => exact ⟨c.gj.enc g, by simp [encBytes, msgpack, hp], fun hne => absurd rfl hne⟩
+  apply Proofs.JsonHistory.runFrom_sim c fp steps _ _ (Proofs.JsonHistory.rel_init c fp vals _)
+  intro v hv
+  exact ⟨good v (rt v hv).1, fun v' h' => good v' ((rt v hv).2 v' h')⟩
 
-/-- the hypotheses are satisfiable: a history over two strings -/
-example (fp : FloatParse) : ∀ v ∈ [V.str [0x61] false, V.str [0x22, 0x0A] true], unjson fp (sexpToJson v) = some (norm v) := by
+/-- the hypotheses are satisfiable: a history over two strings (`mv` does not apply to a string) -/
+example (fp : FloatParse) : ∀ v ∈ [V.str [0x61] false, V.str [0x22, 0x0A] true],
+    unjson fp (sexpToJson v) = some (norm v) ∧
+      ∀ v', JsonHistory.setFirstV v = some v' → unjson fp (sexpToJson v') = some (norm v') := by
   intro v hv
   simp only [List.mem_cons, List.not_mem_nil, or_false] at hv
   rcases hv with rfl | rfl
-  · exact json_roundtrip_string_partial fp _ _ (by decide +kernel)
-  · exact json_roundtrip_string_partial fp _ _ (by decide +kernel)
+  · exact ⟨json_roundtrip_string_partial fp _ _ (by decide +kernel), fun v' h => by simp [JsonHistory.setFirstV] at h⟩
+  · exact ⟨json_roundtrip_string_partial fp _ _ (by decide +kernel), fun v' h => by simp [JsonHistory.setFirstV] at h⟩
 
 open ZygoVerif.JsonHistory in
 /-- **Decoded results are independent**: a mutation of result cell `r` (`aset`, `hset` on a
